@@ -191,6 +191,15 @@ def _driver_jobs(tier):
         for k in range(0, len(attempts), CHUNK):
             jobs.append((prog, k // CHUNK, attempts[k:k + CHUNK], 4,
                          8 if tier == "quick" else 1))
+        # the same documented-option attempts once more, each on a FRESH tree (scripts
+        # reach most of them only after earlier commits have already changed the target)
+        if prog in ("generic", "nemo"):
+            fresh = [a for a in attempts if a[1][0] == "node" and a[2] is not None
+                     and a[2] != {"force": True}][:1500 if tier == "quick" else None]
+            planned[prog]["fresh_tree_attempts"] = len(fresh)
+            for k in range(0, len(fresh), CHUNK):
+                jobs.append((prog, 10000 + k // CHUNK, fresh[k:k + CHUNK], 0,
+                             8 if tier == "quick" else 1))
     # long jobs first
     jobs.sort(key=lambda j: (-len(j[2]), j[0], j[1]))
     return jobs, planned
